@@ -89,9 +89,9 @@ def grammar(n, per, **kw):
     return {'scen': 'grammar', 'args': a, 'n': n}
 
 P('C03', theorems=['Tcs.C03_linearizable_partial', 'Tcs.C03_from_init', 'Tcs.C03_no_overlap_5xx', 'Tcs.C03_no_double_accept', 'Tcs.C03Ex.C03_relaxation_needed',
-                   'Tcs.machine_linearizable', 'Tcs.runinv_run', 'Tcs.arel_step', 'Tcs.linrel_step', 'Tcs.C03_reduction_prefix',
+                   'Tcs.C03_http_run', 'Tcs.C03_http_responses', 'Tcs.C03_library_step', 'Tcs.machine_linearizable', 'Tcs.runinv_run', 'Tcs.arel_step', 'Tcs.linrel_step', 'Tcs.C03_reduction_prefix',
                    'Tcs.red_step', 'Tcs.C03_reduction', 'Tcs.C03_reduction_sublist', 'Tcs.red_init', 'Tcs.red_resp', 'Tcs.red_db'],
-  module='Tcs.Props.C03',
+  module='Tcs.Props.C03Http',
   owned={'conc.trace', 'conc.resp', 'dump.own', 'dump.other'},
   oracles=[O.o_c03],
   plan={'quick': [{'scen': 'sched', 'args': {}, 'n': 180}], 'thorough': [{'scen': 'sched', 'args': {}, 'n': 4000}, {'scen': 'sched', 'args': {'probe': '1', 'corpus': '0'}, 'n': 300}]})
@@ -482,3 +482,7 @@ _add_ties('C14', [(H_ + 'GetChild', ['Tcs.handlerSrc_getChildVersion'], ['handle
 _add_ties('C15', [(H_ + 'AddVersion', ['Tcs.handlerSrc_addVersion'], ['handlers:addVersion']),
                   (H_ + 'AddSnapshot', ['Tcs.handlerSrc_addSnapshot'], ['handlers:addSnapshot'])])
 _add_ties('C20', [(H_ + 'Routes', ['Tcs.handlerSrc_routes'], ['handlers:routes', 'handlers:defaultHeaders'])])
+# WebServer::new / WebServer::config (server/src/lib.rs) and the in-memory backend (core/src/inmemory.rs)
+_add_ties('C16', [(H_ + 'WebNew', ['Tcs.handlerSrc_webNew'], ['handlers:web'])])
+_add_ties('C20', [(H_ + 'Scope', ['Tcs.handlerSrc_scope'], ['handlers:web'])])
+_add_ties('C13', [('Tcs.Proofs.MemSrcTie', ['Tcs.memSrc_tie'], ['mem:getClient', 'mem:newClient', 'mem:setSnapshot', 'mem:getSnapshotData', 'mem:getByParent', 'mem:getVersion', 'mem:addVersion'])])
